@@ -4,7 +4,7 @@
    PARTIAL: protoc is absent; "well formed" means accepted by the proto3 fragment
    recogniser of Model.v (parse_message / parse_file) with valid numbers and names. *)
 From Coq Require Import String.
-From GRPC Require Import Model Lemmas Values LemmasValues.
+From GRPC Require Import Model Lemmas LemmasNames Values LemmasValues.
 Local Open Scope N_scope.
 Local Open Scope list_scope.
 
@@ -19,6 +19,32 @@ Theorem msgdef_parses m toks :
     forall rest fuel, (fuel > length toks)%nat -> parse_message fuel (toks ++ rest) = Some (pm, rest).
 Proof. exact (message_parse m toks). Qed.
 Print Assumptions msgdef_parses.
+
+(* ---- attribute_names_become_identifiers: goa's name pipeline (strip ":transport",
+   mark digit runs, CamelCase with its initialism table, reserved-word suffix, the OAuth
+   exception, SnakeCase) turns EVERY non-empty attribute name whose first surviving
+   character is a letter into a proto identifier - for all byte strings, whatever
+   separators, digits, initialisms or keywords they hold. The hypothesis is exactly the
+   negation of the recorded finding field-name-not-identifier (1abc -> 1_abc). *)
+Theorem attribute_names_become_identifiers n :
+  n <> [] -> letter_led n = true -> ident_ok (field_name n) = true.
+Proof. exact (field_name_identifier n). Qed.
+Print Assumptions attribute_names_become_identifiers.
+
+(* hence msgdef_parses with the hypothesis on names moved from goa's output to the
+   design: letter-led attribute and union names *)
+Theorem msgdef_parses_letter_led_names m toks :
+  print_msg m = Some toks -> wf_msg_src m = true ->
+  exists pm, shape_msg m = Some pm /\
+    forall rest fuel, (fuel > length toks)%nat -> parse_message fuel (toks ++ rest) = Some (pm, rest).
+Proof. intros Hp Hw. exact (message_parse m toks Hp (wf_msg_src_wf m Hw)). Qed.
+Print Assumptions msgdef_parses_letter_led_names.
+
+Example names_example :
+  map (fun n => (letter_led (k n), ident_ok (field_name (k n))))
+      ["fooBar"; "HTTPServer"; "a-b c"; "x9"; "message"; "__"; "1abc"; "_7x"; "OAuthToken:wire"]%string
+  = [(true, true); (true, true); (true, true); (true, true); (true, true); (true, true); (false, false); (false, false); (true, true)].
+Proof. vm_compute; reflexivity. Qed.
 
 (* the whole file: header, one service block, the messages *)
 Theorem proto_file_parses f toks :
